@@ -10,14 +10,17 @@ from vcommon import Violation
 LEVEL = "exploration"
 
 TOPS = [b"alpha", b"beta", b"gamma"]
-KIDS = [b"s", b"l", b"i", b"o", b"n", b"u"]
-HOME_KIND = {b"s": "str", b"l": "list", b"i": "inaddr", b"o": "obj", b"n": "str", b"u": "str"}
+KIDS = [b"s", b"l", b"i", b"o", b"n", b"u", b"f"]
+HOME_KIND = {b"s": "str", b"l": "list", b"i": "inaddr", b"o": "obj", b"n": "str", b"u": "str", b"f": "str"}
+FLOATS = [b"0", b"-0", b"1.5", b"nan", b"1000", b"2.25", b"-7.5"]   # texts with pairwise different values (bit patterns)
 
 
 def gen_value(rng, kind, name, depth):
     if kind == "str":
         if name == b"n":
             return ("str", str(rng.choice([0, 1, 7, 42, 65535])).encode())
+        if name == b"f":
+            return ("str", rng.choice(FLOATS))
         return ("str", rng.choice([b"", b"v1", b"v2", b"long value", b"x"]))
     if kind == "list":
         return ("list", rng.choice([[], [b"a"], [b"a", b"b"], [b"a", b"b", b"c"], [b"b", b"a"], [b"a", b"x", b"c"]]))
@@ -50,7 +53,8 @@ def gen_file(rng):
     tree = []
     for t in TOPS:
         if rng.random() < 0.7:
-            tree.append((respell(rng, t), ("obj", gen_obj(rng, 2))))
+            # now and then a section that is there but empty
+            tree.append((respell(rng, t), ("obj", gen_obj(rng, 2) if rng.random() < 0.88 else [])))
     if rng.random() < 0.3:
         tree.append((b"loose", gen_value(rng, rng.choice(["str", "list"]), b"loose", 0)))
     return tree
@@ -78,6 +82,8 @@ def gen_regs(rng):
                 path = "%s/%s" % (base, k.decode())
                 if kind == "str" and k == b"n":
                     regs.append(("REG str %s 2 %s" % (path, pct(rng.choice([b"5", b"0", b"100"]))), path, "str"))
+                elif kind == "str" and k == b"f":
+                    regs.append(("REG str %s 3 %s" % (path, pct(rng.choice([b"0.5", b"0", b"nan"]))), path, "str"))
                 elif kind == "str":
                     regs.append(("REG str %s 0 %s" % (path, pct(rng.choice([None, b"", b"dflt", b"v1"]))), path, "str"))
                 elif kind == "list":
@@ -96,7 +102,7 @@ def project(dump):
     for ln in hconf.strip_logs(dump):
         m = re.match(r"N (\S+) (str|list|inaddr|obj) p=(\d) s=(\d)(.*)$", ln)
         if not m:
-            out["?" + ln] = ("garbage",)
+            out[("?" + ln, "garbage")] = ("garbage",)
             continue
         path, kind, p, s, rest = m.groups()
         key = (path.lower().replace('"', ""), kind)
